@@ -246,6 +246,15 @@ func PropC04(c *vs.Case, f Factory) error {
 				})
 				log = append(log, "orphaned "+ObjID(o))
 				c.Class("env:orphaned-%s", d.Resource)
+				if c.Prob(1, 3) {
+					// ... and it is on its way out (held by someone's finalizer): not to be adopted, child or revision
+					env.W.Sim.ExtUpdate(d.Resource, metaStr(o, "namespace"), metaStr(o, "name"), func(obj map[string]any) {
+						obj["metadata"].(map[string]any)["finalizers"] = []any{"example.com/hold"}
+					})
+					env.W.Sim.ExtDelete(d.Resource, metaStr(o, "namespace"), metaStr(o, "name"), "")
+					log = append(log, "... and deleted (held by a finalizer)")
+					c.Class("env:orphan-terminating-%s", d.Resource)
+				}
 			}
 		}
 		staleParent := false
